@@ -413,7 +413,9 @@ class Model(object):
         d = [self.pools()]
         for a in self.assocs:
             for link in (a.source_link, a.target_link):
-                d.append(sorted((self.idx(k), [self.idx(p) for p in v]) for k, v in link.items()))
+                # an entry whose partner set is empty is not observable through navigation, referential reads, selections or
+                # exceptions (the property's observation points): it is left out of the comparison
+                d.append(sorted((self.idx(k), [self.idx(p) for p in v]) for k, v in link.items() if len(v)))
         d.append([sorted((k, repr(v)) for k, v in i.__dict__.items()) for i in self.insts])
         return d
 
